@@ -9,15 +9,15 @@ namespace TDV.Incr
 
 /-- Flattening a well-formed value gives pairwise distinct path keys. -/
 theorem flatten_keysNodup (v : Val) (h : v.WF) (p : Path) : KeysNodup (flatten v p) := by
-  sorry
+  exact flatten_keysNodup_aux.1 v h p
 
 /-- Flattening is faithful: looking a path up in the flat state is looking it up in the tree. -/
 theorem lookup_flatten (v : Val) (h : v.WF) (q : Path) : lookup q (flatten v []) = v.get q := by
-  sorry
+  simpa using lookup_flatten_aux.1 v h [] q
 
 /-- `_unflatten(_flatten(v)) == v` (exactly, including dict order) for every well-formed value. -/
 theorem unflatten_flatten (v : Val) (h : v.WF) : getState (flatten v []) = v := by
-  sorry
+  exact unflatten_flatten_aux.1 v h _ (length_le_depth _)
 
 /-- One transfer is lossless: if the main side denotes the same map as the worker's diff base, then
 after applying the delta generated against any new flat state it denotes the new state — whatever keys
@@ -25,19 +25,21 @@ were added, removed or changed. -/
 theorem apply_generate (base main new : Flat) (hb : KeysNodup base) (hm : KeysNodup main)
     (hn : KeysNodup new) (h : MapEq main base) :
     MapEq (applyDelta main (generateDelta base new)) new ∧ KeysNodup (applyDelta main (generateDelta base new)) := by
-  sorry
+  exact ⟨apply_generate_aux base main new hb hm hn h, keysNodup_applyDelta _ _ hm⟩
 
 /-- **Lossless for every history.**  Starting from a synchronised pair, after any finite sequence of
 reports (each shipped as a delta and applied), the main side denotes exactly the last reported value. -/
 theorem lossless (v0 : Val) (vs : List Val) (h0 : v0.WF) (hs : ∀ v ∈ vs, v.WF) (q : Path) :
     lookup q (vs.foldl Pair.report (Pair.init v0)).main = ((vs.getLast?).getD v0).get q := by
-  sorry
+  exact lossless_aux v0 vs h0 hs q
 
 /-- The state handed out by `get_state()` on the main side has exactly the content of the last report
 (as a tree, path by path; dict order on the main side may differ because deltas are unordered). -/
 theorem lossless_state (v0 : Val) (vs : List Val) (h0 : v0.WF) (hs : ∀ v ∈ vs, v.WF) (q : Path) :
     (getState (vs.foldl Pair.report (Pair.init v0)).main).get q = ((vs.getLast?).getD v0).get q := by
-  sorry
+  rw [get_getState _ (prefixFree_of_lookup _ ((vs.getLast?).getD v0)
+    (fun q => lossless_aux v0 vs h0 hs q))]
+  exact lossless_aux v0 vs h0 hs q
 
 /-- Non-vacuity: a nested well-formed value, a history that deletes a key, turns a leaf into a dict and
 a dict into a leaf. -/
@@ -48,6 +50,11 @@ example :
     v0.WF ∧ v1.WF ∧ v2.WF ∧
       getState ([v1, v2].foldl Pair.report (Pair.init v0)).main = v2 ∧
       getState ([v1].foldl Pair.report (Pair.init v0)).main = v1 := by
-  sorry
+  refine ⟨?_, ?_, ?_, ?_, ?_⟩
+  · simp
+  · simp
+  · simp
+  · rfl
+  · rfl
 
 end TDV.Incr
